@@ -449,6 +449,72 @@ async def sc_busy(ctx, rng):
         await lst.aclose()
 
 
+async def sc_eof_during_send(ctx, rng):
+    """a second task calls send_eof() while a send() is parked half-way through a message larger than the socket
+    buffers (reader idle).  Whatever the stream class does with that call, the peer must receive the COMPLETE message
+    before EndOfStream and the parked send() must end normally.  UNIXSocketStream: send(), send_fds() and send_eof()
+    share the send guard, so the call must be refused with BusyResourceError.  SocketStream (TCP / wrapped): HEAD's
+    send_eof() is unguarded by design - transport.write_eof() only takes effect after the transport's write buffer
+    has drained - so 'accepted' is recorded as a fact, not flagged."""
+    import anyio
+    name = "eof_during_send"
+    raw = ctx.family == "unix"
+    big = (4 if raw else 32) * MiB
+    params = {"big": big}
+    a, b, lst = await make_pair(ctx)
+    res = {"send": None, "eof": None, "at": None}
+    rc = Receiver(ctx, name, b, [65536], params)
+    with anyio.move_on_after(60 if ctx.tier == "quick" else 180) as scope:
+        async with anyio.create_task_group() as tg:
+            async def first_send():
+                try:
+                    await a.send(pattern(0, big))
+                    res["send"] = "done"
+                except Exception as e:  # noqa: BLE001
+                    res["send"] = type(e).__name__
+
+            async def finish():
+                while res["send"] is None:
+                    await anyio.sleep(0.01)
+                if res["send"] == "done" and res["eof"] != "accepted":
+                    await a.send_eof()      # the orderly EOF, after the message
+
+            tg.start_soon(first_send)
+            await anyio.wait_all_tasks_blocked()
+            await anyio.sleep(0.05)
+            if res["send"] is not None:
+                ctx.fact("eof_during_send_not_exhibited", True)   # the kernel swallowed everything
+            else:
+                try:
+                    await a.send_eof()
+                    res["eof"] = "accepted"
+                except anyio.BusyResourceError:
+                    res["eof"] = "busy"
+                except Exception as e:  # noqa: BLE001
+                    res["eof"] = type(e).__name__
+            tg.start_soon(finish)
+            await rc.drain()
+    if scope.cancelled_caught:
+        ctx.viol(name, f"deadlock/timeout: peer got {rc.off} of {big} bytes, send() -> {res['send']}, send_eof() -> {res['eof']}", params)
+    else:
+        if raw and res["eof"] not in (None, "busy"):
+            ctx.viol(name, f"send_eof() by a second task while send() was parked half-way through its message "
+                           f"{'was accepted' if res['eof'] == 'accepted' else 'raised ' + str(res['eof'])} "
+                           f"instead of raising BusyResourceError", params)
+        if res["eof"] not in (None, "busy", "accepted"):
+            ctx.viol(name, f"send_eof() during a parked send() raised {res['eof']}", params)
+        if rc.off != big:
+            ctx.viol(name, f"the peer got {rc.off} of {big} bytes (a truncated message) and then EndOfStream; the interrupted "
+                           f"send() ended with {res['send']}; the second task's send_eof() was {res['eof']}", params)
+        elif res["send"] != "done":
+            ctx.viol(name, f"send() interrupted by another task's send_eof() ended with {res['send']}", params)
+    ctx.fact("eof_during_send", res["eof"])
+    await a.aclose()
+    await b.aclose()
+    if lst is not None:
+        await lst.aclose()
+
+
 async def sc_close_pending(ctx, rng):
     """a receive() that is blocked when another task closes the stream locally ends with ClosedResourceError
     (the transport's connection_lost / the readiness future wakes it): it does not hang"""
@@ -495,7 +561,8 @@ async def main(ctx: Ctx, only=None):
     for _ in range(reps):
         plan += [("sizes", sc_sizes, ("a->b",)), ("sizes", sc_sizes, ("b->a",))]
         plan += [("duplex", sc_duplex, ()), ("close", sc_close, ("a closes",)), ("close", sc_close, ("b closes",)),
-                 ("busy", sc_busy, ()), ("close_pending", sc_close_pending, ())]
+                 ("busy", sc_busy, ()), ("close_pending", sc_close_pending, ()),
+                 ("eof_during_send", sc_eof_during_send, ())]
     for d in ("a->b", "b->a"):
         for mode in ("idle", "late_first_receive", "cancelled_receive"):
             if ctx.tier == "quick" and (d, mode) in (("a->b", "idle"), ("b->a", "late_first_receive")):
